@@ -66,7 +66,11 @@ def scenario(transport, ka, T, R, actions):
     cur.append(["close"])
     segments.append(cur)
     return {"transport": transport, "framing": framing, "keep_alive": ka, "T": T, "R": R, "by_reg": by_reg,
-            "after": "now", "actions": list(actions), "healthy_reg": reg, "gc": True, "reg_class": {str(k): v for k, v in reg_class.items()},
+            "after": "now", "actions": list(actions), "healthy_reg": reg, "gc": True,
+            # (with a loop change the transport of the closed loop can only go away by garbage collection - CPython does that at once by
+            #  reference counting, the harness' own references delay it: collect at the quiescent points so that only a transport the
+            #  LIBRARY still holds on to counts as open)
+            "gc_quiesce": "NEWLOOP" in actions, "reg_class": {str(k): v for k, v in reg_class.items()},
             "segments": [[{"start": 0.0, "steps": seg}] for seg in segments]}
 
 
@@ -95,9 +99,18 @@ def check_run(sc, run, part: Part):
     # (2) quiescent points
     calls = {c["id"]: c for c in run.calls}
     prev_ok_read = None
+    # which sockets are open once a call has ended (and the loop has settled), and in which event loop of the run they were opened
+    opened_in, seg_ = {}, 0
+    for e in run.events:
+        if e[1] == "segment":
+            seg_ = e[2]
+        elif e[1] == "open":
+            opened_in[e[2]] = seg_
     for q in run.quiesce:
         c = calls[q["id"]]
         op = c["step"][0]
+        sids = q.get("live_sids") or []
+        stale_only = ka and bool(sids) and all(opened_in.get(sid, c["seg"]) < c["seg"] for sid in sids)
         if op == "read" and not ka:
             if q["live"] != 0:
                 out.append((f"C10/{tr}/open-after-request",
@@ -106,7 +119,13 @@ def check_run(sc, run, part: Part):
                 part.count("no_keepalive_closed_after_request")
         if op == "close":
             if q["live"] != 0:
-                out.append((f"C10/{tr}/open-after-close", f"{ctx}: {q['live']} socket(s) open after close()"))
+                earlier = [x for x in run.calls if x["seg"] < c["seg"] and x["step"][0] == "read"]
+                # (a rejected request leaves its exception - and through the traceback the transport's frames - referenced by the
+                #  protocol's finished future: that stale transport survives garbage collection until the next request replaces the future)
+                held = stale_only and bool(earlier) and earlier[-1]["outcome"] == "RequestRejectedException"
+                out.append((f"C10/{tr}/open-after-close" + ("/stale-transport-of-closed-loop" if stale_only else "") + ("/held-by-rejected-request" if held else ""),
+                            f"{ctx}: {q['live']} socket(s) open after close()" +
+                            (" (opened in the previous, closed event loop)" if stale_only else "")))
         if q["live"] > 1 and not any(k.startswith(f"C10/{tr}/two-open-sockets") for k, _ in out):
             out.append((f"C10/{tr}/two-open-sockets", f"{ctx}: {q['live']} sockets open at a quiescent point"))
     # (3) keep-alive: consecutive successful requests reuse the transport
